@@ -124,7 +124,7 @@ pub fn gen_session(r: &mut Xo, max_batches: usize) -> Session {
     let nb = r.range(1, max_batches as u64) as usize;
     let mut eg = crate::drive::EvGen::default();
     // mostly small batches; one session in eight has large ones (the C glue may buffer or chunk events)
-    let max_batch = if r.chance(1, 8) { *r.pick(&[31usize, 32, 33, 64, 65, 200, 1000]) } else { 6 };
+    let max_batch = if r.chance(1, 8) { *r.pick(&[31usize, 32, 33, 64, 65, 200, 1000, 1100, 2100, 5000]) } else { 6 };
     let h = crate::gen::HCfg { calls: nb, max_batch, empty: true, backwards: false, huge_steps: false, unknown_ids: true };
     // completions are not adaptive here (the script is fixed up front so that the C client can replay it)
     let batches = (0..nb)
